@@ -246,6 +246,8 @@ class SymEval:
                     return recv
         if isinstance(f, ast.Name) and f.id in ("float", "complex", "int"):
             return self.ev(c.args[0])
+        if isinstance(f, ast.Name) and f.id == "abs" and len(c.args) == 1:
+            return _map(sp.Abs, self.ev(c.args[0]))
         raise Untranslatable(f"E6: call `{norm(c)[:60]}` in {self.fn.qualname} is not in the translation table")
 
 
